@@ -324,16 +324,8 @@ def emit(repo: str) -> str:
         "Definition resolver_gen (perm : list string -> list string) (c : cfg) (m : crmode) : list fw -> res (list fw) :=\n"
         "  resolve_gen (ordered_opts_gen perm c) m.\n"
         "Definition setup_gen (perm : list string -> list string) (c : cfg) (m : crmode) := setup skip_gen (resolver_gen perm c m).\n"
-        "Definition run_cli_help_gen (perm : list string -> list string) (c : cfg) (m : crmode) :=\n"
-        "  run_cli_help skip_gen arg_help_gen TEMPORARY_TOKEN_gen adds_default_gen strips_token_gen option_order_preserved_gen perm\n"
-        "               (resolver_gen perm c m) help_status_gen help_stdout_gen c.\n"
-        "Definition run_api_help_gen (perm : list string -> list string) (c : cfg) (m : crmode) :=\n"
-        "  run_api_help skip_gen arg_help_gen TEMPORARY_TOKEN_gen adds_default_gen strips_token_gen option_order_preserved_gen perm\n"
-        "               (resolver_gen perm c m) print_help_sets_up_gen print_help_applies_config_gen c.\n"
         "Definition api_defaults_gen := api_defaults print_help_applies_config_gen.\n"
-        "Definition parse_defaults_gen (perm : list string -> list string) (c : cfg) (m : crmode) :=\n"
-        "  parse_defaults skip_gen (resolver_gen perm c m) print_help_sets_up_gen print_help_applies_config_gen.\n"
-        "(* the same three, on an already computed set-up outcome *)\n"
+        "(* the three observable behaviours on an already computed set-up outcome ... *)\n"
         "Definition cli_help_of_gen (perm : list string -> list string) :=\n"
         "  cli_help_of skip_gen arg_help_gen TEMPORARY_TOKEN_gen adds_default_gen strips_token_gen option_order_preserved_gen perm\n"
         "              help_status_gen help_stdout_gen.\n"
@@ -341,4 +333,11 @@ def emit(repo: str) -> str:
         "  api_help_of skip_gen arg_help_gen TEMPORARY_TOKEN_gen adds_default_gen strips_token_gen option_order_preserved_gen perm\n"
         "              print_help_sets_up_gen print_help_applies_config_gen.\n"
         "Definition parse_defaults_of_gen := parse_defaults_of skip_gen print_help_sets_up_gen print_help_applies_config_gen.\n"
+        "(* ... and composed with set-up: parse_args([\"--help\"]), print_help(), a parse with an empty command line *)\n"
+        "Definition run_cli_help_gen (perm : list string -> list string) (c : cfg) (m : crmode) (pre cfgf : dmap) (F : list hwrap) :=\n"
+        "  cli_help_of_gen perm c pre cfgf (setup_gen perm c m F).\n"
+        "Definition run_api_help_gen (perm : list string -> list string) (c : cfg) (m : crmode) (pre cfgf : dmap) (F : list hwrap) :=\n"
+        "  api_help_of_gen perm c pre cfgf (setup_gen perm c m F).\n"
+        "Definition parse_defaults_gen (perm : list string -> list string) (c : cfg) (m : crmode) (after_print_help : bool)\n"
+        "    (pre cfgf : dmap) (F : list hwrap) := parse_defaults_of_gen after_print_help pre cfgf (setup_gen perm c m F).\n"
     )
